@@ -3,6 +3,7 @@ package main
 import (
 	"bufio"
 	"bytes"
+	"encoding/hex"
 	"encoding/json"
 	"flag"
 	"fmt"
@@ -109,6 +110,26 @@ func typedNode(n gen.Node) any {
 	return typed(n)
 }
 
+// unhex: strings and keys of case trees may be written "hex:<bytes>" so that any byte sequence (invalid UTF-8, control
+// characters) survives the JSON case file.
+func unhex(s string) string {
+	if strings.HasPrefix(s, "hex:") {
+		if b, err := hex.DecodeString(s[4:]); err == nil {
+			return string(b)
+		}
+	}
+	return s
+}
+
+func hexed(s string) string {
+	for i := 0; i < len(s); i++ {
+		if s[i] < 0x20 || s[i] >= 0x7f {
+			return "hex:" + hex.EncodeToString([]byte(s))
+		}
+	}
+	return s
+}
+
 // fromTyped builds the Go value a typed tree describes (Go type taken from "g").
 func fromTyped(v any) any {
 	m := v.(abs)
@@ -160,9 +181,9 @@ func fromTyped(v any) any {
 		return f
 	case "str":
 		if g == "gen.String" {
-			return gen.String(m["v"].(string))
+			return gen.String(unhex(m["v"].(string)))
 		}
-		return m["v"].(string)
+		return unhex(m["v"].(string))
 	case "time":
 		var t time.Time
 		if _, logged := m["ns"].(string); logged {
@@ -204,16 +225,16 @@ func fromTyped(v any) any {
 			o := make(gen.Object, len(ks))
 			for i, k := range ks {
 				if x := fromTyped(vs[i]); x != nil {
-					o[k.(string)] = x.(gen.Node)
+					o[unhex(k.(string))] = x.(gen.Node)
 				} else {
-					o[k.(string)] = nil
+					o[unhex(k.(string))] = nil
 				}
 			}
 			return o
 		}
 		o := make(map[string]any, len(ks))
 		for i, k := range ks {
-			o[k.(string)] = fromTyped(vs[i])
+			o[unhex(k.(string))] = fromTyped(vs[i])
 		}
 		return o
 	}
@@ -509,7 +530,8 @@ func writePair(w wfun, op wopt, s, x any) abs {
 		o := op.o // a fresh copy for every call: writers may keep state in the options
 		return w.f(d, &o)
 	}
-	return abs{"w": w.name, "opt": op.name, "s": safeCall(call, s), "x": safeCall(call, x)}
+	// the texts travel Go-quoted in pure ASCII: exact for every byte (control characters, invalid UTF-8, U+2028)
+	return abs{"w": w.name, "opt": op.name, "s": strconv.QuoteToASCII(safeCall(call, s)), "x": strconv.QuoteToASCII(safeCall(call, x))}
 }
 
 func writeOne(c convCase) abs {
@@ -559,7 +581,7 @@ func writeOne(c convCase) abs {
 					}
 					return f(g.Simplify())
 				}, s)
-				outs = append(outs, abs{"w": "oj.Marshal(Simplify(Generify))", "opt": "sort", "s": safeCall(f, s), "x": rt})
+				outs = append(outs, abs{"w": "oj.Marshal(Simplify(Generify))", "opt": "sort", "s": strconv.QuoteToASCII(safeCall(f, s)), "x": strconv.QuoteToASCII(rt)})
 			}
 		}
 		if isRoot {
@@ -853,6 +875,36 @@ func (g *cgen) jsonText(depth int) string {
 	return b.String()
 }
 
+// every character class the writers treat specially, for keys and for string values
+var specials = []string{"<", ">", "&", "a<b>&c", "</script>", "\"", "q\"q", "\\", "b\\s", "\x01", "\x1f", "\x7f", "\u2028", "\u2029", "\u00e9", "\u65e5\u672c",
+	"\U0001F600", " ", "a b", "", "123", "-1", "1e5", "0x10", "true", "false", "null", "tab\there", "new\nline", "cr\rx", "\xff\xfe", "a\xc3", "\xed\xa0\x80",
+	"[x]", "{x}", "a:b", "a,b", "'s'", "$", "@x", "#c", "//c", "x/y", "~", "`"}
+
+func (g *cgen) specialStr() abs {
+	return abs{"t": "str", "v": hexed(specials[g.r.Intn(len(specials))]), "g": "string"}
+}
+
+// specialTree: objects (and arrays) whose keys and string values come from `specials`
+func (g *cgen) specialTree(depth int) abs {
+	if depth <= 0 || g.r.Intn(4) == 0 {
+		return g.specialStr()
+	}
+	if g.r.Intn(4) == 0 {
+		e := make([]any, 1+g.r.Intn(3))
+		for i := range e {
+			e[i] = g.specialTree(depth - 1)
+		}
+		return abs{"t": "arr", "g": "[]any", "v": e}
+	}
+	m := map[string]any{}
+	for i, n := 0, 1+g.r.Intn(4); i < n; i++ {
+		m[hexed(specials[g.r.Intn(len(specials))])] = g.specialTree(depth - 1)
+	}
+	o := aObj(m)
+	o["g"] = "map[string]any"
+	return o
+}
+
 // floatLit: a decimal literal with 15..19 significant digits, the point anywhere (also 0.ddd and 0.00ddd), optional
 // sign and optional exponent.
 func (g *cgen) floatLit() string {
@@ -958,7 +1010,11 @@ func convRand(args []string) {
 			}
 		}
 		enc.Encode(abs{"ev": "conv", "op": op, "tree": tr, "muts": muts})
-		enc.Encode(abs{"ev": "write", "tree": g.tree(1 + g.r.Intn(3))})
+		if i%2 == 0 {
+			enc.Encode(abs{"ev": "write", "tree": g.specialTree(1 + g.r.Intn(2))})
+		} else {
+			enc.Encode(abs{"ev": "write", "tree": g.tree(1 + g.r.Intn(3))})
+		}
 		txt := g.jsonText(1 + g.r.Intn(3))
 		switch g.r.Intn(5) {
 		case 4:
